@@ -17,7 +17,7 @@ def main():
     if a.suppress:
         env["VF_SUPPRESS"] = a.suppress
     cmd = [sys.executable, "-m", "vf.chlaunch", "check", "--report_all", "--analysis_kind", "PEP316",
-           "--per_condition_timeout", str(a.t), "--per_path_timeout", str(a.p), "-v", f"{file}:{line}"]
+           "--per_condition_timeout", str(a.t), "--per_path_timeout", str(a.p), "--unblock", "sqlite3.connect", "sqlite3.connect/handle", "-v", f"{file}:{line}"]
     t0 = time.time()
     p = subprocess.run(cmd, env=env, cwd=runner.VERIF, capture_output=True, text=True)
     print(p.stdout.strip()[-3000:])
